@@ -22,10 +22,20 @@ fn one(id: String, seed: u64, idx: u64, rng: &mut SplitMix64, sink: &mut Sink) {
         1 => ((1u32 << 31) + 2048 + 8 * rng.below(64) as u32, &[16, 32, 64]), // 1 TiB + ε
         _ => (u32::MAX, &[32, 64]),                           // 2 TiB − 512 B
     };
-    let spc = *rng.pick(spcs);
+    // one volume in eight instead: 4 KiB sectors, one sector per cluster, the MAXIMAL number of clusters FAT32 allows
+    // (0x0FFFFFF4, about 1 TiB): the cluster numbers 0x0FFFFFF0.. exist there, which the library never hands out and
+    // hides when another implementation has used them
+    let maxc = idx % 8 == 7;
+    let spc = if maxc { 1 } else { *rng.pick(spcs) };
+    let bps: u32 = if maxc { 4096 } else { 512 };
     let reserved = *rng.pick(&[32u32, 32, 9, 64]);
     let fats = if rng.chance(1, 6) { 1 } else { 2 };
-    let mut geo = Geo::layout_total(512, spc, reserved, fats, total);
+    let mut geo = if maxc {
+        let clusters = *rng.pick(&[0x0FFF_FFF4u32, 0x0FFF_FFF4, 0x0FFF_FFF3, 0x0FFF_FFF0, 0x0FFF_FFEF]);
+        Geo::layout(32, bps, spc, reserved, fats, 0, clusters, 0, 0)
+    } else {
+        Geo::layout_total(512, spc, reserved, fats, total)
+    };
     if fats == 2 && rng.chance(1, 6) {
         geo.mirror = false;
         geo.active = rng.below(2) as u32;
@@ -73,7 +83,18 @@ fn one(id: String, seed: u64, idx: u64, rng: &mut SplitMix64, sink: &mut Sink) {
     } else {
         None
     };
-    let (hint_kind, hint): (&str, Option<u32>) = match if far { rng.below(2) } else { rng.below(8) } {
+    let pick = if maxc {
+        8 + rng.below(3)
+    } else if far {
+        rng.below(2)
+    } else {
+        rng.below(8)
+    };
+    let (hint_kind, hint): (&str, Option<u32>) = match pick {
+        // maximal cluster count: just below / inside the cluster numbers the library treats as special
+        8 => ("below-special", Some(0x0FFF_FFEE.min(last - 1))),
+        9 => ("special", Some(0x0FFF_FFF0.min(last))),
+        10 => ("last", Some(last)),
         0 => ("last-1", Some(last - 1)),
         1 => ("last", Some(last)),
         2 => ("last+1", Some(last + 1)),
@@ -112,8 +133,8 @@ fn one(id: String, seed: u64, idx: u64, rng: &mut SplitMix64, sink: &mut Sink) {
     }
     let mut gt: Vec<String> = Vec::new();
     gt.push(format!(
-        "G geo bits=32 bps=512 spc={} reserved={} fats={} spf={} root_entries=0 total_sectors={} clusters={} mirror={} active={} root_cluster=2 free={} fsinfo_free={} fsinfo_next={} label=none status=0 fat1={}",
-        spc, reserved, fats, geo.spf, geo.total_sectors, geo.clusters, geo.mirror as u8, geo.active, free, free,
+        "G geo bits=32 bps={} spc={} reserved={} fats={} spf={} root_entries=0 total_sectors={} clusters={} mirror={} active={} root_cluster=2 free={} fsinfo_free={} fsinfo_next={} label=none status=0 fat1={}",
+        bps, spc, reserved, fats, geo.spf, geo.total_sectors, geo.clusters, geo.mirror as u8, geo.active, free, free,
         hint.map_or("none".to_string(), |h| h.to_string()), 0x0FFF_FFFFu32
     ));
     if let Some(m) = m4g {
@@ -170,7 +191,7 @@ fn one(id: String, seed: u64, idx: u64, rng: &mut SplitMix64, sink: &mut Sink) {
         dev_size: geo.dev_size,
         class: VolClass::Fat32,
         bits: 32,
-        bps: 512,
+        bps,
         cs: geo.cs(),
         clusters: geo.clusters,
         root_entries: 0,
